@@ -1,7 +1,7 @@
 """C03  No hidden execution: everything the VM would import or call is in the decompile."""
 import json
 
-from .. import e1, oracles
+from .. import e1, e3, oracles
 from ..asm import BASE, G, INST, SG, alphabet, fullclass_symbols, register_ext
 from ..common import Report
 
@@ -11,7 +11,7 @@ CORE = "STR NONE MARK TUPLE T1 T2 ETUP EDICT REDUCE OBJ NEWOBJ NEWOBJ_EX BUILD B
 
 
 def sigma_exec():
-    return alphabet(CORE, [G("os", "system"), G("__builtin__", "eval"), G("vp_sink", "hit"),
+    return alphabet(CORE, [G("os", "system"), G("__builtin__", "eval"), G("vp_sink", "hit"), G("m", "set"), G("__builtin__", "list"),
                            SG("os", "system"), SG("builtins", "exec"), INST("os", "system"), INST("__builtin__", "eval")])
 
 
@@ -58,6 +58,23 @@ def check(tier):
     from . import c03_corpus
 
     c03_corpus.run(rep, tier)
+    # the resolve-form x call-form x disposal x prefix product of C04 (memo layouts, same-named globals, ...) through this oracle
+    from . import c04 as _c04
+
+    tpl = [(t, b, ("c03_events",)) for t, b in _c04.template_programs(tier)]
+    if tier == "quick":
+        tpl = tpl[::3]
+    from .. import par
+
+    tot = e1.Out()
+    for o in par.pmap_unordered(e3._Guard(c03_corpus._one, PROP), tpl, chunksize=256):
+        if isinstance(o, par.WorkerDied):
+            continue
+        tot.merge(o)
+    rep.add("template_programs", len(tpl))
+    for sig, lst in tot.viol.items():
+        rep.merge_violations(lst)
+        rep.vcount[sig] = rep.vcount.get(sig, 0) - len(lst) + tot.vcount[sig]
     # deviation 1 around natural object pickles (long programs)
     from .. import deviate
 
